@@ -35,11 +35,20 @@ def handleCore (st : St) (xs : List Sexp) : Option String := do
         | some r => r.matchAt inp p
         | none => none
       bytesMode := bytes }
+  let api := (field "api" xs).isSome
   let outs ← cases.mapM fun c => match c with
     | .list (p :: cs) => do
       let p ← p.nat?
       let inp ← nats? cs
-      pure s!"{printReg (gen st.F P inp fuel entry p)} {printRes (peg P inp fuel entry p)}"
+      let g := gen st.F P inp fuel entry p
+      let s := peg P inp fuel entry p
+      if api then
+        let go (full : Bool) : String := match g with
+          | some r => printOutcome (parseApi inp.length full r)
+          | none => "U"
+        pure s!"{go false} {go true} {specOutcome inp.length false s} {specOutcome inp.length true s}"
+      else
+        pure s!"{printReg g} {printRes s}"
     | _ => none
   pure (" ; ".intercalate outs)
 
